@@ -7,6 +7,7 @@ import (
 	"context"
 	"crypto/md5"
 	"fmt"
+	"os"
 	"sort"
 	"strings"
 	"sync"
@@ -44,6 +45,9 @@ func (r *registrar) QueryServant(ctx context.Context, id string) ([]registry.End
 	r.mu.Lock()
 	defer r.mu.Unlock()
 	r.calls++
+	if os.Getenv("C15_DEBUG") != "" {
+		simrt.Event("registry queried (%d)", r.calls)
+	}
 	return append([]endpointf.EndpointF(nil), r.active...), nil, nil
 }
 func (r *registrar) QueryServantBySet(ctx context.Context, id, set string) ([]registry.Endpoint, []registry.Endpoint, error) {
@@ -69,6 +73,7 @@ type callRec struct {
 	hashType int // -1 none, 0 mod-hash, 1 consistent-hash
 	code     uint32
 	modList  []string // installed mod-hash list at call start
+	modCache []int    // its weighted cycle (indexes into modList), if any
 	activeT1 []string
 	k        int
 	t0, t1   time.Duration
@@ -85,31 +90,33 @@ type sample struct {
 }
 
 type S struct {
-	mu       sync.Mutex
-	nodes    []*node
-	calls    []*callRec
-	samples  []sample
-	reg      *registrar
-	prx      *tars.ServantProxy
-	timeout  int
-	checkMs  int
-	finished bool
-	hashMode bool
-	mgrMode  bool // C13 at manager level: the registry's list changes while calls select endpoints
-	regLog   []regEvent
-	refreshMs int
+	mu         sync.Mutex
+	nodes      []*node
+	calls      []*callRec
+	samples    []sample
+	reg        *registrar
+	prx        *tars.ServantProxy
+	timeout    int
+	checkMs    int
+	finished   bool
+	hashMode   bool
+	regChanges bool
+	mgrMode    bool // C13 at manager level: the registry's list changes while calls select endpoints
+	regLog     []regEvent
+	refreshMs  int
 }
 
 type regEvent struct {
 	t    time.Duration
 	list []string
+	eps  []endpointf.EndpointF
 }
 
 func (s *S) Prepare(c *scen.Ctx) { world.PrepareProcess() }
 func (s *S) YieldOff() []string {
 	return []string{"tars/util/rtimer", "tars/util/rogger", "tars/util/gpool"}
 }
-func (s *S) NoStalls() bool                 { return true }
+func (s *S) NoStalls() bool               { return true }
 func (s *S) Limits() (time.Duration, int) { return 20 * time.Minute, 6000000 }
 
 var hashCodes = []uint32{0, 1, 2, 3, 5, 7, 11, 0xFFFFFFFF, 0x7FFFFFFF, 0x80000000, 123456789, 987654321, 3735928559, 42, 4242424242, 1000000007}
@@ -162,6 +169,19 @@ func (s *S) Run(c *scen.Ctx) {
 	s.refreshMs = 60000
 	if s.mgrMode {
 		s.refreshMs = []int{1000, 2000, 700}[simrt.Draw(3, "c13m.refresh")]
+		c.Describe("registry_refresh_ms", s.refreshMs)
+	}
+	if s.hashMode {
+		s.refreshMs = 2000
+		if simrt.Draw(2, "c14c.static") == 1 { // start with static weights
+			for i := range s.reg.active {
+				s.reg.active[i].WeightType = 1
+				s.reg.active[i].Weight = []int32{4, 8, 40, 100}[simrt.Draw(4, "c14c.w")]
+			}
+		}
+	}
+	if !s.hashMode && !s.mgrMode && simrt.Draw(3, "c15.refresh") == 0 {
+		s.refreshMs = []int{1000, 2000}[simrt.Draw(2, "c15.refreshms")]
 		c.Describe("registry_refresh_ms", s.refreshMs)
 	}
 	comm := world.NewClient(world.ClientOpts{InvokeTimeoutMs: s.timeout, CheckStatusMs: s.checkMs, RefreshMs: s.refreshMs, DialTimeout: 200 * time.Millisecond}, tars.Registrar(s.reg))
@@ -231,6 +251,47 @@ func (s *S) Run(c *scen.Ctx) {
 			}
 		})
 	}
+	if !s.hashMode && !s.mgrMode && simrt.Draw(3, "c15.registry") == 0 {
+		// the registry's answer changes (weights only, membership and weight type stay) while
+		// the client refreshes on the same ticker grid as its status check: every change
+		// makes the next refresh rebuild the selectors concurrently with checkStatus
+		s.regChanges = true
+		simrt.GoNamed("registry", func() {
+			for simrt.Elapsed() < runLen {
+				simrt.Sleep(time.Duration(1+simrt.Draw(8, "c15.reggap"))*time.Second + 3*time.Millisecond)
+				s.reg.mu.Lock()
+				for j := range s.reg.active {
+					s.reg.active[j].Weight = []int32{100, 50, 20}[simrt.Draw(3, "c15.regw")]
+				}
+				s.reg.mu.Unlock()
+				c.Count("fault.registry_changes_weights", 1)
+				s.logRegistry()
+			}
+		})
+	}
+	if s.hashMode && simrt.Draw(2, "c14c.flips") == 1 {
+		// the registry changes the weight type / weights of all endpoints now and then
+		nfl := 1 + simrt.Draw(3, "c14c.nflips")
+		simrt.GoNamed("registry", func() {
+			for i := 0; i < nfl; i++ {
+				simrt.Sleep(time.Duration(10+simrt.Draw(60, "c14c.flipgap"))*time.Second + 3*time.Millisecond)
+				s.reg.mu.Lock()
+				toStatic := s.reg.active[0].WeightType == 0
+				for j := range s.reg.active {
+					if toStatic {
+						s.reg.active[j].WeightType = 1
+						s.reg.active[j].Weight = []int32{4, 8, 40, 100}[simrt.Draw(4, "c14c.w")]
+					} else {
+						s.reg.active[j].WeightType = 0
+						s.reg.active[j].Weight = 100
+					}
+				}
+				s.reg.mu.Unlock()
+				c.Count("fault.registry_flips_weight_type", 1)
+				s.logRegistry()
+			}
+		})
+	}
 	s.prx = world.Proxy(comm, "App.Srv.Obj")
 	// monitor: samples the rotation once per simulated 250ms
 	stop := make(chan struct{})
@@ -256,9 +317,11 @@ func (s *S) Run(c *scen.Ctx) {
 			cr.hashType = simrt.Draw(2, "c14.type")
 			cr.code = hashCodes[simrt.Draw(len(hashCodes), "c14.code")]
 			current.SetClientHash(ctx, cr.hashType, cr.code)
-			for _, e := range tars.VerifModHashList(s.prx) {
+			l, cache := tars.VerifModHashState(s.prx)
+			for _, e := range l {
 				cr.modList = append(cr.modList, e.Host)
 			}
+			cr.modCache = cache
 		}
 		var rsp requestf.ResponsePacket
 		cr.t0 = simrt.Elapsed()
@@ -276,6 +339,14 @@ func (s *S) Run(c *scen.Ctx) {
 		fmt.Sscanf(c.Param("verbose", "-1"), "%d", &from)
 		if c.Param("verbose", "") != "" && simrt.Elapsed() >= ms(from) {
 			simrt.Event("call %d -> %s err=%v rotation-before=%v rotation-after=%v", k, ip, err != nil, cr.activeAt, s.activeNow())
+		}
+		if os.Getenv("C15_DEBUG") != "" {
+			var ks []string
+			for _, e := range tars.VerifActive(s.prx) {
+				ks = append(ks, e.Key)
+			}
+			l, cache := tars.VerifModHashState(s.prx)
+			simrt.Event("debug call %d -> %s: active %v adapters %+v modlist %d cache %d", k, ip, ks, tars.VerifAdapters(s.prx), len(l), len(cache))
 		}
 		k++
 		g := gaps[gi]
@@ -308,10 +379,11 @@ func (s *S) logRegistry() {
 	for _, e := range s.reg.active {
 		l = append(l, e.Host)
 	}
+	eps := append([]endpointf.EndpointF(nil), s.reg.active...)
 	s.reg.mu.Unlock()
 	sort.Strings(l)
 	s.mu.Lock()
-	s.regLog = append(s.regLog, regEvent{simrt.Elapsed(), l})
+	s.regLog = append(s.regLog, regEvent{simrt.Elapsed(), l, eps})
 	s.mu.Unlock()
 	simrt.Event("registry now lists %v", l)
 }
@@ -404,6 +476,11 @@ func (s *S) Check(c *scen.Ctx, res *simrt.Result) {
 			maxGap = g
 		}
 	}
+	// Probe candidates are queued at most every 30s per endpoint and each call serves one
+	// queued candidate: with k endpoints blocked at once the k-th waits k call gaps, the next
+	// round's first none, so two probes of one endpoint can be (N-1) gaps closer than the
+	// queueing interval (plus the whole-second clock the interval is measured with).
+	maxGap *= time.Duration(len(s.nodes) - 1)
 	for _, n := range s.nodes {
 		if s.mgrMode {
 			break // the registry takes endpoints out of rotation here: the failover rules are C15's business
@@ -533,16 +610,28 @@ func (s *S) Check(c *scen.Ctx, res *simrt.Result) {
 	}
 }
 
-// ketama builds the reference ring over hosts (no static weights: 25 rounds of
-// md5(host_i), four little-endian points each) and looks code up.
-func ketama(hosts []string, code uint32) string {
+// ketama builds the reference ring over hosts and looks code up: md5(host_i) for i in
+// [0, rounds), four little-endian points each; rounds = 25 without static weights,
+// max(1, w/4) for a positive static weight w, none for w <= 0.
+func ketama(hosts []string, weights map[string]int32, weighted bool, code uint32) string {
 	type pt struct {
 		p uint32
 		h string
 	}
 	var pts []pt
 	for _, h := range hosts {
-		for i := 0; i < 25; i++ {
+		rounds := 25
+		if weighted {
+			w := weights[h]
+			if w <= 0 {
+				continue
+			}
+			rounds = int(w) / 4
+			if rounds == 0 {
+				rounds = 1
+			}
+		}
+		for i := 0; i < rounds; i++ {
 			d := md5.Sum([]byte(fmt.Sprintf("%s_%d", h, i)))
 			for k := 0; k < 4; k++ {
 				pts = append(pts, pt{uint32(d[4*k]) | uint32(d[4*k+1])<<8 | uint32(d[4*k+2])<<16 | uint32(d[4*k+3])<<24, h})
@@ -560,6 +649,34 @@ func ketama(hosts []string, code uint32) string {
 	return pts[i].h
 }
 
+func describeStates(st []regEvent) string {
+	out := ""
+	for _, e := range st {
+		out += fmt.Sprintf("[from %v:", e.t)
+		for _, ep := range e.eps {
+			out += fmt.Sprintf(" %s(type %d, weight %d)", ep.Host, ep.WeightType, ep.Weight)
+		}
+		out += "]"
+	}
+	return out
+}
+
+// regStates returns the registry answers that may have been the client's view at some
+// point of [from, to].
+func (s *S) regStates(from, to time.Duration) []regEvent {
+	var out []regEvent
+	for i, e := range s.regLog {
+		end := time.Duration(1<<62 - 1)
+		if i+1 < len(s.regLog) {
+			end = s.regLog[i+1].t
+		}
+		if e.t <= to && end >= from {
+			out = append(out, e)
+		}
+	}
+	return out
+}
+
 // checkHash: every hash-routed call goes where the reference predicts from the
 // rotation at selection time (C14, cluster level).
 func (s *S) checkHash(c *scen.Ctx) {
@@ -573,30 +690,49 @@ func (s *S) checkHash(c *scen.Ctx) {
 			c.Count("probe.hash_call_used_as_health_probe", 1)
 			continue // the call was used as the probe of a blocked endpoint (C15)
 		}
-		// candidate rotations: at the start and at the end of the call
-		cands := [][]string{cr.activeAt, cr.activeT1}
+		// candidate views: the rotation at the start and at the end of the call x every registry
+		// answer (weights, weight type) the client may have been working with
+		lag := time.Duration(s.refreshMs)*time.Millisecond + 1500*time.Millisecond
 		ok := false
 		var want []string
-		for _, set := range cands {
+		for _, set := range [][]string{cr.activeAt, cr.activeT1} {
 			if len(set) == 0 {
 				ok = true // nothing in rotation: any endpoint may be tried (C15)
 				continue
 			}
-			var w string
-			if cr.hashType == 1 {
-				w = ketama(set, cr.code)
-			} else {
-				// slot h mod N of the installed list (reported by the selector itself)
-				l := cr.modList
-				if len(l) != len(set) {
-					ok = true // the list changed between the snapshots: not judged
-					continue
+			for _, st := range s.regStates(cr.t0-lag, cr.t1) {
+				weights := map[string]int32{}
+				weighted := true
+				for _, e := range st.eps {
+					weights[e.Host] = e.Weight
+					if e.WeightType != 1 {
+						weighted = false
+					}
 				}
-				w = l[int(cr.code%uint32(len(l)))]
-			}
-			want = append(want, w)
-			if w == cr.host {
-				ok = true
+				var w string
+				if cr.hashType == 1 {
+					w = ketama(set, weights, weighted, cr.code)
+				} else {
+					l := cr.modList
+					if len(l) != len(set) {
+						ok = true // the list changed between the snapshots: not judged
+						continue
+					}
+					switch {
+					case weighted && len(cr.modCache) > 0:
+						w = l[cr.modCache[int(cr.code%uint32(len(cr.modCache)))]]
+					case weighted:
+						w = "<no weighted cycle installed although every listed endpoint has a static weight>"
+					case len(cr.modCache) > 0:
+						w = "<weighted cycle installed although the registry lists no static weights>"
+					default:
+						w = l[int(cr.code%uint32(len(l)))]
+					}
+				}
+				want = append(want, w)
+				if w == cr.host {
+					ok = true
+				}
 			}
 		}
 		checked++
@@ -605,10 +741,11 @@ func (s *S) checkHash(c *scen.Ctx) {
 			if cr.hashType == 0 {
 				kind = "mod-hash"
 			}
-			c.Fail("C14", "misrouted", kind, "call %d with %s code %d went to %s; the rotation was %v at its start and %v at its end, for which the reference gives %v (installed mod-hash list %v)", cr.k, kind, cr.code, cr.host, cr.activeAt, cr.activeT1, want, cr.modList)
+			c.Fail("C14", "misrouted", kind, "call %d with %s code %d went to %s; the rotation was %v at its start and %v at its end, for which the reference gives %v (installed mod-hash list %v); the call ran from %v to %v and the registry answered %s", cr.k, kind, cr.code, cr.host, cr.activeAt, cr.activeT1, want, cr.modList, cr.t0, cr.t1, describeStates(s.regStates(cr.t0-lag, cr.t1)))
 		}
-		if sameSet(cr.activeAt, cr.activeT1) {
-			key := fmt.Sprintf("%d|%d|%v|%v", cr.hashType, cr.code, cr.activeAt, cr.modList)
+		if sts := s.regStates(cr.t0-lag, cr.t1); sameSet(cr.activeAt, cr.activeT1) && len(sts) == 1 {
+			// same rotation and same registry answer (weights, weight type): same endpoint
+			key := fmt.Sprintf("%d|%d|%v|%v|%v", cr.hashType, cr.code, cr.activeAt, cr.modList, sts[0].t)
 			if prev, ok := lastFor[key]; ok && prev != cr.host {
 				c.Fail("C14", "unstable", "routing", "code %d (type %d) went to %s and later to %s while the rotation %v was unchanged", cr.code, cr.hashType, prev, cr.host, cr.activeAt)
 			}
